@@ -1,5 +1,8 @@
 import NmVerif.Index.Broadcast
 import NmVerif.Lemmas.Broadcast
+import NmVerif.Index.BroadcastExpr
+import NmVerif.Index.BroadcastKinds
+import NmVerif.Lemmas.BroadcastKinds
 /-
   C06 — Broadcasting follows NumPy's rules and is symmetric, associative, idempotent.
   Only property statements (+ non-vacuity examples) live here; lemmas are in Lemmas/Broadcast.lean.
@@ -326,6 +329,161 @@ theorem broadcast_fold_append (ss ts : List Shape) (hs : ss ≠ []) (ht : ts ≠
         · have := (hkp k).2 s h; omega
         · have := (hkq k).2 s h; omega
 
+/-! ### any order, grouping and multiplicity: nests of broadcast_shape calls -/
+private theorem compatible_of_mem_iff {ss ts : List Shape} (h : ∀ s, s ∈ ss ↔ s ∈ ts) : Compatible ss ↔ Compatible ts := by
+  unfold Compatible
+  constructor
+  · intro hc k s hs t ht; exact hc k s ((h s).2 hs) t ((h t).2 ht)
+  · intro hc k s hs t ht; exact hc k s ((h s).1 hs) t ((h t).1 ht)
+
+private theorem isAxisMax_of_mem_iff {ss ts : List Shape} (h : ∀ s, s ∈ ss ↔ s ∈ ts) (r : Shape) : IsAxisMax r ss ↔ IsAxisMax r ts := by
+  have key : ∀ {xs ys : List Shape}, (∀ s, s ∈ xs ↔ s ∈ ys) → IsAxisMax r xs → IsAxisMax r ys := by
+    intro xs ys h ⟨⟨s, hs, hl⟩, hle, hk⟩
+    refine ⟨⟨s, (h s).1 hs, hl⟩, fun s hs => hle s ((h s).2 hs), fun k => ?_⟩
+    obtain ⟨⟨t, ht, e⟩, hm⟩ := hk k
+    exact ⟨⟨t, (h t).1 ht, e⟩, fun s hs => hm s ((h s).2 hs)⟩
+  exact ⟨key h, key (fun s => (h s).symm)⟩
+
+/-- the n-ary fold depends only on WHICH shapes occur among the operands — not on their order, nor on how often a
+    shape is repeated (for two lists this contains `broadcast_comm`, `broadcast_idem`, `broadcast_absorb` and
+    `broadcast_fold_perm` at once) -/
+theorem broadcast_fold_set (ss ts : List Shape) (hs : ss ≠ []) (ht : ts ≠ []) (hp : AllPos ss)
+    (h : ∀ s, s ∈ ss ↔ s ∈ ts) : broadcastShape ss = broadcastShape ts := by
+  have hp' : AllPos ts := fun s hs => hp s ((h s).2 hs)
+  apply opt_ext
+  intro r
+  rw [broadcast_eq_some_iff _ hs hp r, broadcast_eq_some_iff _ ht hp' r, compatible_of_mem_iff h, isAxisMax_of_mem_iff h r]
+
+private theorem mapM_append_some {α β} (f : α → Option β) (l₁ l₂ : List α) (r : List β) :
+    (l₁ ++ l₂).mapM f = some r ↔ ∃ r₁ r₂, l₁.mapM f = some r₁ ∧ l₂.mapM f = some r₂ ∧ r = r₁ ++ r₂ := by
+  induction l₁ generalizing r with
+  | nil => simp
+  | cons a t ih =>
+    simp only [List.cons_append, List.mapM_cons, Option.bind_eq_bind, Option.pure_def]
+    cases hfa : f a with
+    | none => simp
+    | some y =>
+      simp only [Option.bind_some]
+      cases ht : (t ++ l₂).mapM f with
+      | none =>
+        simp only [Option.bind_none, reduceCtorEq, false_iff]
+        rintro ⟨r₁, r₂, h1, h2, rfl⟩
+        cases ht1 : t.mapM f with
+        | none => simp [ht1] at h1
+        | some q =>
+          have := (ih (q ++ r₂)).2 ⟨q, r₂, ht1, h2, rfl⟩
+          simp [ht] at this
+      | some q =>
+        obtain ⟨q₁, q₂, h1, h2, rfl⟩ := (ih q).1 ht
+        simp only [Option.bind_some, Option.some.injEq, h1, h2]
+        constructor
+        · rintro rfl; exact ⟨y :: q₁, q₂, rfl, rfl, rfl⟩
+        · rintro ⟨r₁, r₂, e1, e2, rfl⟩; cases e1; cases e2; rfl
+
+/-- the shapes selected by operand numbers are members of the operand list, one per number -/
+private theorem mapM_get_spec (env : List Shape) (l : List Nat) (ss : List Shape) (h : l.mapM (fun i => env[i]?) = some ss) :
+    ss.length = l.length ∧ (∀ s, s ∈ ss ↔ ∃ i ∈ l, env[i]? = some s) := by
+  induction l generalizing ss with
+  | nil => simp at h; subst h; simp
+  | cons a t ih =>
+    simp only [List.mapM_cons, Option.bind_eq_bind, Option.bind_eq_some_iff, Option.pure_def, Option.some.injEq] at h
+    obtain ⟨y, hy, ys, hys, rfl⟩ := h
+    obtain ⟨hl, hm⟩ := ih ys hys
+    refine ⟨by simp [hl], fun s => ?_⟩
+    simp only [List.mem_cons, hm s]
+    constructor
+    · rintro (rfl | ⟨i, hi, e⟩)
+      · exact ⟨a, Or.inl rfl, hy⟩
+      · exact ⟨i, Or.inr hi, e⟩
+    · rintro ⟨i, rfl | hi, e⟩
+      · left; rw [hy] at e; cases e; rfl
+      · exact Or.inr ⟨i, hi, e⟩
+
+private theorem leaves_ne_nil (e : BExpr) : e.leaves ≠ [] := by
+  induction e with
+  | leaf i => simp [BExpr.leaves]
+  | pair l r ihl ihr => simp [BExpr.leaves, ihl]
+  | tri x y z ihx ihy ihz => simp [BExpr.leaves, ihx]
+
+private theorem allPos_of_sel {env : List Shape} (hp : AllPos env) {l : List Nat} {ss : List Shape}
+    (h : l.mapM (fun i => env[i]?) = some ss) : AllPos ss := by
+  intro s hs
+  obtain ⟨i, _, e⟩ := ((mapM_get_spec env l ss h).2 s).1 hs
+  exact hp s (List.mem_of_getElem? e)
+
+private theorem sel_ne_nil {env : List Shape} {l : List Nat} {ss : List Shape} (hl : l ≠ [])
+    (h : l.mapM (fun i => env[i]?) = some ss) : ss ≠ [] := by
+  have := (mapM_get_spec env l ss h).1
+  intro e; subst e
+  simp at this
+  exact hl (List.eq_nil_of_length_eq_zero this.symm)
+
+/-- a nest of `broadcast_shape` calls (2-operand and variadic, intermediate `maybe` results passed on) over the
+    operands `env` has the value of ONE variadic broadcast of the operands that occur in it, left to right -/
+theorem bexpr_eval_eq_fold (env : List Shape) (hp : AllPos env) (e : BExpr) (ss : List Shape)
+    (h : e.leaves.mapM (fun i => env[i]?) = some ss) : e.eval env = broadcastShape ss := by
+  induction e generalizing ss with
+  | leaf i =>
+    simp only [BExpr.leaves, List.mapM_cons, List.mapM_nil, Option.bind_eq_bind, Option.pure_def] at h
+    cases hi : env[i]? with
+    | none => simp [hi] at h
+    | some s =>
+      simp [hi] at h
+      subst h
+      simp [BExpr.eval, hi, broadcastShape, broadcastFold]
+  | pair l r ihl ihr =>
+    simp only [BExpr.leaves] at h
+    obtain ⟨sl, sr, hl, hr, rfl⟩ := (mapM_append_some _ _ _ _).1 h
+    simp only [BExpr.eval, ihl sl hl, ihr sr hr]
+    exact (broadcast_fold_append sl sr (sel_ne_nil (leaves_ne_nil l) hl) (sel_ne_nil (leaves_ne_nil r) hr)
+      (allPos_of_sel hp hl) (allPos_of_sel hp hr)).symm
+  | tri x y z ihx ihy ihz =>
+    simp only [BExpr.leaves] at h
+    obtain ⟨sxy, sz, hxy, hz, rfl⟩ := (mapM_append_some _ _ _ _).1 h
+    obtain ⟨sx, sy, hx, hy, rfl⟩ := (mapM_append_some _ _ _ _).1 hxy
+    simp only [BExpr.eval, ihx sx hx, ihy sy hy, ihz sz hz]
+    have nx := sel_ne_nil (leaves_ne_nil x) hx
+    have ny := sel_ne_nil (leaves_ne_nil y) hy
+    have nz := sel_ne_nil (leaves_ne_nil z) hz
+    have px := allPos_of_sel hp hx
+    have py := allPos_of_sel hp hy
+    have pz := allPos_of_sel hp hz
+    have pxy := allPos_of_sel hp hxy
+    rw [broadcast_fold_append (sx ++ sy) sz (by simp [nx]) nz pxy pz, broadcast_fold_append sx sy nx ny px py]
+    cases broadcastShape sx with
+    | none => simp
+    | some a =>
+      cases broadcastShape sy with
+      | none => simp
+      | some b =>
+        cases broadcastShape sz with
+        | none => cases broadcastShape2 a b <;> simp
+        | some c => simp [broadcastShape, broadcastFold]
+
+/-- **order, grouping and multiplicity do not matter**: two nests of `broadcast_shape` calls in which the same
+    operands occur (however ordered, grouped or repeated — `bc(a,b)`, `bc(b,a)`, `bc(a,bc(a,b))`, `bc(bc(a,b),c)`,
+    `bc(c,a,b)` …) give the same shape or both fail -/
+theorem bexpr_eval_congr (env : List Shape) (hp : AllPos env) (e₁ e₂ : BExpr)
+    (hv₁ : ∀ i ∈ e₁.leaves, i < env.length) (hv₂ : ∀ i ∈ e₂.leaves, i < env.length)
+    (h : ∀ i, i ∈ e₁.leaves ↔ i ∈ e₂.leaves) : e₁.eval env = e₂.eval env := by
+  have sel : ∀ l : List Nat, (∀ i ∈ l, i < env.length) → ∃ ss, l.mapM (fun i => env[i]?) = some ss := by
+    intro l hl
+    induction l with
+    | nil => exact ⟨[], rfl⟩
+    | cons a t ih =>
+      obtain ⟨ys, hys⟩ := ih (fun i hi => hl i (by simp [hi]))
+      have ha : a < env.length := hl a (by simp)
+      exact ⟨env[a] :: ys, by simp [List.mapM_cons, List.getElem?_eq_getElem ha, hys]⟩
+  obtain ⟨s₁, h₁⟩ := sel _ hv₁
+  obtain ⟨s₂, h₂⟩ := sel _ hv₂
+  rw [bexpr_eval_eq_fold env hp e₁ s₁ h₁, bexpr_eval_eq_fold env hp e₂ s₂ h₂]
+  apply broadcast_fold_set s₁ s₂ (sel_ne_nil (leaves_ne_nil e₁) h₁) (sel_ne_nil (leaves_ne_nil e₂) h₂) (allPos_of_sel hp h₁)
+  intro s
+  rw [(mapM_get_spec env _ s₁ h₁).2 s, (mapM_get_spec env _ s₂ h₂).2 s]
+  constructor
+  · rintro ⟨i, hi, e⟩; exact ⟨i, (h i).1 hi, e⟩
+  · rintro ⟨i, hi, e⟩; exact ⟨i, (h i).2 hi, e⟩
+
 /-! ### broadcast_to -/
 
 /-- `view::broadcast_to` succeeds exactly when NumPy allows the broadcast (rank not larger, every aligned
@@ -433,6 +591,150 @@ theorem broadcastTo_inBounds (src dst : Shape) (v : IxView) (h : broadcastToView
   rw [this, List.drop_left]
   exact specAligned_inShape hfs hin
 
+/-! ### the container kind of the operands does not matter (model of meta::resolve_optype<broadcast_shape_t>,
+tied to the code by the `value@container` answers of the kind matrix) -/
+
+/-- **the result container is never too small**: for well-formed operands of ANY kinds (constant, clipped with any
+    bounds ≥ the values, fixed, bounded, dynamic, None), if `broadcast_shape(a, b)` compiles, the container
+    `meta::resolve_optype` picks for the result holds the broadcast value without clamping a clipped integer and
+    without exceeding a bounded vector -/
+theorem broadcast_container_fits (a b : KShape) (ha : a.WF) (hb : b.WF) (r : Shape)
+    (hr : broadcastShape2 a.vals b.vals = some r) (hne : resolveBroadcast a b ≠ .error) :
+    (resolveBroadcast a b).Fits r ∧ (resolveBroadcast a b).store r = (r, 0, 0) :=
+  ⟨resolveBroadcast_fits ha hb hr hne, RType.store_of_fits (resolveBroadcast_fits ha hb hr hne)⟩
+
+/-- a call that does not compile (both shapes compile-time constants, incompatible) is a refusal of the rule too -/
+theorem broadcast_compile_error_is_refusal (a b : KShape) (ha : a.WF) (hb : b.WF)
+    (he : resolveBroadcast a b = .error) : broadcastShape2 a.vals b.vals = none :=
+  resolveBroadcast_error ha hb he
+
+/-- **two operands, any kinds**: the kinded call either does not compile — then the shapes are incompatible — or
+    returns exactly the kind-blind `broadcastShape2` of the values (same shape / Nothing) with no hook event -/
+theorem kBroadcast2_kind_independent (a b : KShape) (ha : a.WF) (hb : b.WF) :
+    (kBroadcast2 a b = none → broadcastShape2 a.vals b.vals = none) ∧
+    (∀ o, kBroadcast2 a b = some o → o.val = broadcastShape2 a.vals b.vals ∧ o.clamps = 0 ∧ o.overflows = 0) := by
+  have := kPair_faithful a.out b.out (KShape.out_good ha) (KShape.out_good hb)
+  simp only [KShape.out, Option.bind_some] at this
+  refine ⟨this.1, fun o ho => ?_⟩
+  obtain ⟨g, e⟩ := this.2 o ho
+  exact ⟨e, g.ev.1, g.ev.2⟩
+
+/-- **any nest of calls, any kinds** (every order and grouping, intermediate results in the containers the library
+    gave them): either some call of the nest does not compile — then the kind-blind nest is a refusal — or the value
+    is the kind-blind one, with no clamp and no capacity event anywhere in the nest.  Together with
+    `bexpr_eval_congr` the result of a kinded nest depends only on WHICH operands occur in it. -/
+theorem keval_kind_independent (env : List KShape) (henv : ∀ a ∈ env, a.WF) (e : BExpr) :
+    (e.keval env = none → e.eval (env.map (·.vals)) = none) ∧
+    (∀ o, e.keval env = some o → o.val = e.eval (env.map (·.vals)) ∧ o.clamps = 0 ∧ o.overflows = 0) := by
+  have := keval_faithful env henv e
+  refine ⟨this.1, fun o ho => ?_⟩
+  obtain ⟨g, e⟩ := this.2 o ho
+  exact ⟨e, g.ev.1, g.ev.2⟩
+
+/-- the operands the driver builds for the kind matrix satisfy the hypothesis -/
+theorem ofKind_wf (kind : String) (vals bounds : List Nat) (a : KShape)
+    (h : KShape.ofKind kind vals bounds = some a) (hp : Pos vals) (hb : kind = "cl" → LeL vals bounds)
+    (hn : kind = "none" → vals = []) (hsv : kind = "sv" → vals.length ≤ 8) : a.WF :=
+  KShape.ofKind_wf h hp hb hn hsv
+
+-- non-vacuity: well-formed operands of mixed kinds, the container chosen, both outcomes
+example : KShape.WF ⟨KInfo.ct 2, [3, 1]⟩ := ofKind_wf "ct" [3, 1] [] _ rfl (by decide) (by simp) (by simp) (by simp)
+example : KShape.WF ⟨KInfo.cl [4, 2], [3, 1]⟩ :=
+  ofKind_wf "cl" [3, 1] [4, 2] _ rfl (by decide) (fun _ => by decide) (by simp) (by simp)
+example : KShape.WF ⟨KInfo.arr 2, [3, 5]⟩ := ofKind_wf "a" [3, 5] [] _ rfl (by decide) (by simp) (by simp) (by simp)
+example : resolveBroadcast ⟨KInfo.ct 2, [3, 1]⟩ ⟨KInfo.arr 2, [3, 5]⟩ = .arr 2 := by decide
+example : resolveBroadcast ⟨KInfo.ct 2, [3, 2]⟩ ⟨KInfo.arr 2, [3, 1]⟩ = .clippedT [3, 2] := by decide
+example : resolveBroadcast ⟨KInfo.ct 2, [3, 2]⟩ ⟨KInfo.sv 2, [2]⟩ = .clippedArr 3 2 := by decide
+example : resolveBroadcast ⟨KInfo.cl [4, 2], [3, 1]⟩ ⟨KInfo.ct 2, [3, 2]⟩ = .arr 2 := by decide
+example : resolveBroadcast ⟨KInfo.ct 2, [2, 3]⟩ ⟨KInfo.ct 2, [3, 2]⟩ = .error := by decide
+example : (kBroadcast2 ⟨KInfo.ct 2, [3, 1]⟩ ⟨KInfo.arr 2, [3, 5]⟩).map (·.val) = some (some [3, 5]) := by decide
+example : (BExpr.pair (.leaf 0) (.pair (.leaf 0) (.leaf 1))).keval [⟨KInfo.ct 2, [3, 1]⟩, ⟨KInfo.sv 8, [3, 5]⟩]
+    = some { ty := .svec 8, val := some [3, 5] } := by decide
+/-- why the resolver must bail out on an extent 1 of a constant shape (the seeded change `I > 0` for `I > 1`,
+    broadcast_shape.hpp:378): with the bounds (3,1) taken from the constant operand (3,1) the broadcast (3,5) with a
+    run-time operand is clamped to (3,1), one clamp event -/
+example : (RType.clippedT [3, 1]).store [3, 5] = ([3, 1], 1, 0) := by decide
+
+/-! ### zero extents (outside the property's quantifier, inside "NumPy's rules") -/
+
+/-- **all extents, zero included**: unless some axis pairs a 0 with a 1, `broadcast_shape` is NumPy's rule -/
+theorem broadcast2_eq_numpy_of_not_zeroWithOne (a b : Shape) (h : ZeroWithOne a b = false) :
+    broadcastShape2 a b = npBroadcast2 a b := by
+  unfold broadcastShape2 npBroadcast2
+  rw [bcRev_eq_npRev _ _ h]
+
+/-- positive shapes never are in that class -/
+theorem not_zeroWithOne_of_pos (a b : Shape) (ha : Pos a) (hb : Pos b) : ZeroWithOne a b = false := by
+  unfold ZeroWithOne
+  have key : ∀ (x y : List Nat), (∀ v ∈ x, 0 < v) → (∀ v ∈ y, 0 < v) → zeroOneRev x y = false := by
+    intro x
+    induction x with
+    | nil => intro y _ _; simp [zeroOneRev]
+    | cons v vs ih =>
+      intro y hx hy
+      cases y with
+      | nil => simp [zeroOneRev]
+      | cons w ws =>
+        have hv := hx v (by simp)
+        have hw := hy w (by simp)
+        simp only [zeroOneRev, Bool.or_eq_false_iff, Bool.and_eq_false_imp, beq_iff_eq]
+        refine ⟨⟨fun e => by omega, fun e => ?_⟩, ih ws (fun u hu => hx u (by simp [hu])) (fun u hu => hy u (by simp [hu]))⟩
+        simp only [beq_eq_false_iff_ne, ne_eq]
+        omega
+  exact key _ _ (fun v hv => ha v (List.mem_reverse.1 hv)) (fun v hv => hb v (List.mem_reverse.1 hv))
+
+/-- the unchanged code breaks NumPy's rule on a zero extent paired with 1 (known finding
+    C06.broadcast-zero-extent-with-one; replayed on the real headers: `broadcast_shape((0,0),(1,0))` = (1,0)) -/
+theorem broadcast_zero_extent_counterexample :
+    broadcastShape2 [0, 0] [1, 0] = some [1, 0] ∧ npBroadcast2 [0, 0] [1, 0] = some [0, 0] ∧ ZeroWithOne [0, 0] [1, 0] = true := by decide
+
+example : ZeroWithOne [2, 0] [0] = false := by decide
+example : broadcastShape2 [2, 0] [0] = some [2, 0] ∧ npBroadcast2 [2, 0] [0] = some [2, 0] := by decide
+example : ZeroWithOne [2, 0] [3, 1] = true := by decide
+example : Pos [2, 1, 3] ∧ Pos [4, 1] := by decide
+
+/-! ### the None source (shape of a number) with a clipped target: the one place found where the container kind of
+a shape changes a result of the broadcasting index functions (known finding C06.sbt-none-clipped-target) -/
+
+/-- as long as every extent fits the bound of the LAST element of the clipped target, the None overload of
+    `shape_broadcast_to` returns the target unchanged -/
+theorem sbtNoneClipped_eq_of_le (bounds vals : List Nat) (m : Nat) (hm : bounds.getLast? = some m)
+    (h : ∀ v ∈ vals, v ≤ m) : sbtNoneClipped bounds vals = vals := by
+  unfold sbtNoneClipped
+  rw [hm]
+  simp only
+  conv => rhs; rw [← List.map_id vals]
+  apply List.map_congr_left
+  intro v hv
+  have := h v hv
+  simp only [id]
+  omega
+
+/-- … and only then: an extent above the last bound comes back clamped -/
+theorem sbtNoneClipped_eq_iff (bounds vals : List Nat) (m : Nat) (hm : bounds.getLast? = some m) :
+    sbtNoneClipped bounds vals = vals ↔ ∀ v ∈ vals, v ≤ m := by
+  constructor
+  · intro h v hv
+    unfold sbtNoneClipped at h
+    rw [hm] at h
+    simp only at h
+    have h2 : (vals.map (fun v => min v m)).map id = vals.map id := by rw [h]
+    rw [List.map_map] at h2
+    have := (List.map_inj_left.1 h2) v hv
+    simp only [Function.comp, id] at this
+    omega
+  · exact sbtNoneClipped_eq_of_le bounds vals m hm
+
+/-- the unchanged code breaks the property here: the target `"3:[5]","2:[2]"` (extents (3,2), bounds (5,2)) comes
+    back as (2,2), while `shape_broadcast_to` of the empty shape to (3,2) is (3,2) for every other container kind.
+    Replayed on the real headers (known/C06.json, witness `k6 … op=sbt shapes=[];3,2 kinds=none/cl salt=0`). -/
+theorem sbtNoneClipped_counterexample :
+    sbtNoneClipped [5, 2] [3, 2] = [2, 2] ∧ (shapeBroadcastTo [] [3, 2]).map (·.1) = some [3, 2] := by decide
+
+example : sbtNoneClipped [3, 3] [3, 2] = [3, 2] := by decide
+example : ([5, 2] : List Nat).getLast? = some 2 := by decide
+example : ¬ ∀ v ∈ ([3, 2] : List Nat), v ≤ 2 := by decide
+
 /-! ### broadcast_arrays -/
 
 private theorem broadcastable_of_max {ss : List Shape} {r : Shape} (hp : AllPos ss) (hc : Compatible ss)
@@ -517,6 +819,18 @@ example : specBroadcastIdx [3, 1] [1, 2, 3] = [2, 0] := by decide
 example : InShape [1, 2, 3] [2, 3, 4] := by decide
 example : (broadcastToView [2, 3] [3]).isSome = false := by decide
 example : (broadcastArraysViews [[2, 1], [3], []]).map (·.map (·.dst)) = some [[2, 3], [2, 3], [2, 3]] := by decide
+
+-- nests of calls: value, the hypotheses of `bexpr_eval_congr` on a non-trivial instance, and its conclusion
+example : (BExpr.pair (.pair (.leaf 0) (.leaf 1)) (.leaf 2)).eval [[2, 1, 3], [4, 1], [5, 1, 1, 1]] = some [5, 2, 4, 3] := by decide
+example : (BExpr.tri (.leaf 2) (.leaf 0) (.leaf 1)).eval [[2, 1, 3], [4, 1], [5, 1, 1, 1]] = some [5, 2, 4, 3] := by decide
+example : (BExpr.pair (.leaf 0) (.pair (.leaf 0) (.leaf 1))).leaves.mapM (fun i => [[3, 1], [3, 5]][i]?) = some [[3, 1], [3, 1], [3, 5]] := by decide
+example : (BExpr.pair (.leaf 0) (.pair (.leaf 0) (.leaf 1))).eval [[3, 1], [3, 5]] = (BExpr.pair (.leaf 1) (.leaf 0)).eval [[3, 1], [3, 5]] :=
+  bexpr_eval_congr _ (by decide) _ _ (by decide) (by decide) (by intro i; simp [BExpr.leaves]; omega)
+example : (BExpr.pair (.leaf 1) (.leaf 0)).eval [[3, 1], [3, 5]] = some [3, 5] := by decide
+example : (BExpr.pair (.leaf 0) (.leaf 1)).eval [[2, 3], [3, 2]] = none := by decide
+example : broadcastShape [[3, 1], [3, 5], [3, 1]] = broadcastShape [[3, 5], [3, 1]] :=
+  broadcast_fold_set _ _ (by simp) (by simp) (by decide) (by intro s; simp; grind)
+example : BExpr.parse "*0*01" = some (BExpr.pair (.leaf 0) (.pair (.leaf 0) (.leaf 1))) := by decide
 
 /-- positivity is needed: with a zero extent the implementation's `max` is not NumPy's result `[0]`
     (outside the property's quantifier; kept as a remark, compared with the model only) -/
